@@ -197,6 +197,8 @@ def gen_program(rng, nmax=6, allow_time=True):
     if rng.random() < 0.4:
         for fid in rng.sample(range(0, 4), rng.choice([1, 1, 2])):
             once_flags[fid] = rng.sample(range(10, 20), rng.choice([0, 1, 1, 2]))
+            if len(once_flags[fid]) == 2 and rng.random() < 0.25:
+                once_flags[fid][1] = once_flags[fid][0]      # the once-callback registers the same at-exit id twice
     for k in range(0, n + 1):
         acts = []
         ncb = rng.choice([0, 0, 1, 1, 2, 3, 4]) if k else (1 if rng.random() < 0.1 else 0)
@@ -205,6 +207,16 @@ def gen_program(rng, nmax=6, allow_time=True):
         ltok = {c: f"{lop[c]}{c}" + ("n" if rng.random() < 0.35 else "") for c in children[k]}
         items = [f"A{c}" for c in cbs] + [ltok[c] for c in children[k]]
         items += ["Y"] * rng.choice([0, 0, 1, 1, 2, 3])
+        # the same at-exit id (same callback and user_data) registered again on the thread: every registration runs
+        adjacent = []
+        if cbs and k and rng.random() < 0.25:
+            for _ in range(rng.choice([1, 1, 2])):
+                c = rng.choice(cbs)
+                (adjacent if rng.random() < 0.35 else items).append(f"A{c}")
+        if k and rng.random() < 0.1:
+            mine = [c for fid in once_flags for c in once_flags[fid]]
+            if mine:
+                items.append(f"A{rng.choice(mine)}")          # an id that a once-callback may register on this thread too
         # aws_thread_call_once on shared flags (flags whose callback registers at-exit callbacks are only used
         # by aws threads: on a non-aws thread the library's temporary wrapper is uninitialised there) and
         # repeated aws_common_library_init
@@ -219,6 +231,8 @@ def gen_program(rng, nmax=6, allow_time=True):
         if use_time and k and rng.random() < 0.5:
             items.append(f"S{rng.choice([1, 100, 400, 1500])}")
         rng.shuffle(items)
+        for a in adjacent:                                        # immediately repeated registration
+            items.insert(items.index(a) + 1, a)
         # launches keep child order irrelevant; joins of manual children come after their launch
         if k and rng.random() < 0.15:
             items.insert(rng.randint(0, len(items)), f"J{k}")       # self-join: refused with EDEADLK, state unchanged
@@ -356,6 +370,8 @@ SMALL = [
     # one handle, several manual launch/join cycles without re-initialisation (slot 2 and 3 run on slot 1's handle)
     ("handle-reuse", ["slot 1 U A1", "slot 2 U@1 A2 Y", "slot 3 U@1 A3", "slot 4 M Y", "main L1 L4 J1 L2n J2 J2 P3 J3 W"], (2, 80, 400), (3, 100, 8000)),
     ("handle-reuse-nested", ["slot 1 U Y", "slot 2 U@1 A1 A2", "slot 3 U L1 J1 H2 J2 D2", "main L3 J3 W"], (2, 80, 400), (3, 100, 6000)),
+    # the same at-exit id registered repeatedly (A,B,A and A,A) and again from a once-callback: all run, LIFO
+    ("atexit-repeats", ["once 0 2 2", "slot 1 M A1 A2 A1 O0 A1", "slot 2 U A3 A3 O0", "main L1 L2 J2 W"], (1, 90, 300), (2, 110, 5000)),
     ("cleanup-timeout", ["slot 1 M S20000 A1", "slot 2 M", "main L1 L2 T600 X T0 W C", "tick 50"], (1, 110, 300), (2, 130, 4000)),
     ("create-window-3", ["slot 1 M L2n", "slot 2 M L3", "slot 3 M", "main L1n W"], (1, 100, 400), (2, 120, 8000)),
 ]
